@@ -145,7 +145,7 @@ def run(ck):
         if case.n == 0:
             check_case(ck, case, spec)
     from ..qc import Case
-    from ..scen import data_input
+    from ..scen import data_input, time_input
     from fractions import Fraction as Fr
     for pat in ('', 'p', 'm', 'pm'):
         for kw in (dict(suspect_threshold=Fr(1), fail_threshold=Fr(2)), dict(suspect_threshold=Fr(1), fail_threshold=Fr(2), method='differential')):
@@ -153,6 +153,42 @@ def run(ck):
             check_case(ck, c, None)
     for case, _ in cases.pressure(ck.tier):
         check_case(ck, case, None)
+    # pressure profiles with a gap (NaN is a value every float array can hold)
+    from ..vec import El
+    for vals in ((None,), (1, None), (None, 1), (1, None, 3), (None, None), (1, 2, None), (3, None, 1, None)):
+        cells = [El(X.NAN if v is None else X.num(v), False) for v in vals]
+        c = Case('pressure_increasing_test', [Vec.fresh(cells, kind='nd', dtype='f8', owner='inp')], {}, n=len(vals),
+                 pat={'inp': ''.join('m' if v is None else 'p' for v in vals)}, meta={'class': 'profile-with-gap'},
+                 label=f'pressure_increasing_test({list(vals)})')
+        check_case(ck, c, None)
+    # the families whose tables start at one length only: the empty, one- and two-point series
+    short_pats = ('', 'p', 'm', 'pp', 'pm', 'mp')
+    for pat in short_pats:
+        for kw in (dict(fail_span=(Fr(0), Fr(3))), dict(fail_span=(Fr(3), Fr(0)), suspect_span=[Fr(1), Fr(2)])):
+            for carrier in ('list_none', 'ndarray'):
+                c = Case('gross_range_test', [data_input('inp', pat, carrier)], dict(kw), n=len(pat), pat={'inp': pat}, meta={'class': 'short'},
+                         label=f'gross_range_test(inp:{pat!r} [{carrier}]; {sorted(kw)})')
+                check_case(ck, c, None)
+        for kw in (dict(valid_span=(Fr(1), Fr(3))), dict(valid_span=(None, Fr(3)), start_inclusive=False, end_inclusive=True), dict(valid_span=(None, None))):
+            c = Case('valid_range_test', [data_input('inp', pat, 'ndarray')], dict(kw), n=len(pat), pat={'inp': pat}, meta={'class': 'short'},
+                     label=f'valid_range_test(inp:{pat!r}; {kw})')
+            check_case(ck, c, None)
+        from ..models_pd import TS
+        mem = cases.clim_members()
+        for name in ('none', 'abs', 'abs-zf', 'month-z', 'mixed'):
+            cfg = []
+            for m in mem[name]:
+                d = dict(m)
+                if d.get('period') is None:
+                    d['tspan'] = (TS(d['tspan'][0]), TS(d['tspan'][1]))
+                cfg.append({k: (tuple(Fr(a) if not isinstance(a, TS) else a for a in v) if isinstance(v, tuple) else v) for k, v in d.items()})
+            n = len(pat)
+            for zp in sorted({'p' * n, pat}):
+                c = Case('climatology_test', [], dict(config=cfg, inp=data_input('inp', pat), tinp=time_input('tinp', list(cases.CLIM_T[1:1 + n]), 'dt64'),
+                                                     zinp=data_input('zinp', zp, values=[Fr(15)] * n)),
+                         n=n, pat={'inp': pat, 'zinp': zp}, meta={'class': 'short', 't': list(cases.CLIM_T[1:1 + n])},
+                         label=f'climatology_test(members={name}; inp:{pat!r} zinp:{zp!r})')
+                check_case(ck, c, None)
     # attenuated signal: the empty series on every path
     from ..scen import time_input
     for kw in (dict(), dict(check_type='range'), dict(test_period=20), dict(test_period=20, check_type='range')):
